@@ -11,7 +11,7 @@ def tasks(tier):
             # ('incomparable delays' is one of the internal errors C05 names: the order on delays and its use in update_min)
             + contract_tasks("contracts.tiered_time", "C08")
             + contract_tasks("contracts.scenario_min", "C05")
-            + contract_tasks("contracts.closure_ded", "C05") + lemma_tasks("contracts.closure_ded", "C05") + contract_tasks("contracts.cycles_ded", "C05") + lemma_tasks("contracts.cycles_ded", "C05") + other_tasks("contracts.closure", "C05", "bounded"))
+            + contract_tasks("contracts.closure_ded", "C05") + lemma_tasks("contracts.closure_ded", "C05") + contract_tasks("contracts.cycles_ded", "C05") + lemma_tasks("contracts.cycles_ded", "C05") + other_tasks("contracts.closure", "C05", "bounded") + other_tasks("contracts.determinism_bounded", "C05", "bounded"))
 
 
 TRUSTED_BASE = TRUSTED_CORE
